@@ -73,6 +73,28 @@ func (k *c09) RunCase(c *core.Ctx, i int) {
 			}
 		}
 	}
+	// two contradictory prices of one pair on one day, declared in opposite directions and in a
+	// random order of appearance: the later one in the source wins, before and after printing
+	if o.Prices && r.Intn(4) == 0 {
+		var ps []int
+		for di, d := range j.Dirs {
+			if d.Kind == gen.KPrice {
+				ps = append(ps, di)
+			}
+		}
+		if len(ps) > 0 {
+			d0 := j.Dirs[ps[r.Intn(len(ps))]]
+			a := gen.Dir{Kind: gen.KPrice, Date: d0.Date, Com: d0.Com, Tgt: d0.Tgt, Price: gen.PriceStr(r)}
+			b := gen.Dir{Kind: gen.KPrice, Date: d0.Date, Com: d0.Tgt, Tgt: d0.Com, Price: gen.PriceStr(r)}
+			if r.Intn(2) == 0 {
+				a, b = b, a
+			}
+			for _, x := range []gen.Dir{a, b} {
+				at := r.Intn(len(j.Dirs) + 1)
+				j.Dirs = append(j.Dirs[:at], append([]gen.Dir{x}, j.Dirs[at:]...)...)
+			}
+		}
+	}
 	// tag accrued transactions, add multi-line descriptions
 	acr := 0
 	features := map[string]bool{}
